@@ -34,7 +34,7 @@ PROP = dict(
           "structured random transactions of all 6 kinds (0-3 inputs/outputs/witnesses, 1/4 with precomputed metadata); the crates' Default/default_test_tx values. "
           "Each case: neutral value + to_bytes() + size()/size_static()/size_dynamic() + what decode returned; the model must produce the same bytes and sizes and the same decode result; "
           "oracle on the real code: from_bytes(to_bytes(v)) == v modulo the exempt fields, consumed == size() == len, size % 8 == 0, size_static + size_dynamic == size, encode_static length == size_static. "
-          "distinct = (type, encoding); non-trivial = encoding longer than one word"),
+          "distinct = (type, encoding); non-trivial = encoding longer than one word. Oracle-only (too big for vm_compute): long vectors whose element storage exceeds 1 MiB, 4 MiB and 16 MiB for every element type under a Vec (Vec<u64> 200k/600k/2.2M; Create with 20k/70k/270k storage slots; Script with 50k/180k/720k witnesses, 8k/24k/95k inputs, 16k/56k/215k outputs, 3000 inputs + 3000 outputs; Upload with 40k/140k/540k proof-set entries): to_bytes -> from_bytes -> ==, consumed == size, re-encode equal; class long-vector-round-trip, replay = (kind, count, seed)."),
     level_text=("Machine-checked proof (Coq), once and for all by induction over a schema universe that describes what fuel-derive generates, that for every typed value of "
                 "every protocol type (Transaction and its 6 kinds, Input, Output, Witness, Policies, StorageSlot, UtxoId, TxPointer, Receipt, UpgradePurpose) the encoding is a "
                 "multiple of 8 bytes whose length is what size()/size_static()/size_dynamic() report, and that decoding it (followed by arbitrary bytes) consumes exactly the encoding "
